@@ -154,6 +154,9 @@ func SelfCheck(c *Case, o *Observed) string {
 		}
 		seen[e] = true
 	}
+	if m := DirectiveErrorOnce(o); m != "" {
+		return m
+	}
 	if m := Conform(c, o); m != "" {
 		return "shape|" + m
 	}
@@ -389,6 +392,17 @@ func SpecCheck(c *Case, real, model *Observed) string {
 	se := func(e ErrObs) string { return e.Path + ":" + e.Msg }
 	if keys(all, se) != keys(goAll, se) {
 		return fmt.Sprintf("field errors: harness {%s}, Spec.errsF {%s}", keys(goAll, se), keys(all, se))
+	}
+	return ""
+}
+
+// DirectiveErrorOnce: the document has at most one selection whose directive argument cannot be
+// coerced at run time (syntax.go, addUncoercibleDirective), in one selection set; its error belongs
+// to the collection of that (object type, selection set) and may be reported at most once, however
+// many objects the selection set is applied to and in whatever order they are completed.
+func DirectiveErrorOnce(o *Observed) string {
+	if len(o.DirectiveErrors) > 1 {
+		return fmt.Sprintf("dup|the run-time coercion error of one directive argument is reported %d times: %q", len(o.DirectiveErrors), o.DirectiveErrors)
 	}
 	return ""
 }
